@@ -223,6 +223,19 @@ def oracle(c, obs):
                 bad.append("short / misaligned ciphertext returned a value")
             if c["kind"] == "valid" and obs[0] != "ok":
                 bad.append("valid ciphertext rejected")
+            # what an independent CBC / PKCS7 decryption (AES-ECB block primitive of `cryptography` + the padding rule) gives
+            if len(ct) >= 32 and len(ct) % 16 == 0:
+                prev, plain = ct[:16], b""
+                for i in range(16, len(ct), 16):
+                    blk = ct[i:i + 16]
+                    plain += bytes(a ^ b for a, b in zip(block_d(c["key"], blk), prev))
+                    prev = blk
+                k = plain[-1]
+                well_padded = 1 <= k <= 16 and plain[-k:] == bytes([k]) * k
+                if not well_padded and obs[0] != "err":
+                    bad.append("a ciphertext whose PKCS7 padding is invalid returned a value (%d bytes)" % len(obs[1]))
+                if well_padded and obs != ("ok", plain[:-k]):
+                    bad.append("a well-formed ciphertext did not decrypt to what AES-256-CBC/PKCS7 gives")
         if c["method"] == "bogus" and obs[0] != "err":
             bad.append("unknown method returned a value")
     return bad
